@@ -463,3 +463,68 @@ Proof.
   intros a. rewrite in_splits, filter_In, en_sub_obj_in, ssub_spec, andb_true_iff, !negb_true_iff, !N.eqb_neq, sub_spec.
   split; [tauto|]. intros [H1 [H2 H3]]. repeat split; auto. apply (bounded_sub n a s); auto. apply sub_spec. exact H1.
 Qed.
+
+(* ================= order of the enumerations (other properties iterate over them) ================= *)
+Lemma en_filter_alln_sorted (f : N -> bool) n : StronglySorted N.lt (filter f (alln n)).
+Proof.
+  unfold alln. rewrite en_filter_map. generalize (fun x : nat => f (N.of_nat x)). intros g.
+  generalize (2 ^ n)%nat. intros k. generalize 0%nat. induction k as [|k IH]; intros a; simpl; [constructor|].
+  destruct (g a); [|apply IH]. simpl. constructor; [apply IH|].
+  apply Forall_forall. intros x Hx. apply in_map_iff in Hx. destruct Hx as [y [<- Hy]].
+  apply filter_In in Hy. destruct Hy as [Hy _]. apply in_seq in Hy. lia.
+Qed.
+
+Lemma en_sorted_ext (l1 l2 : list N) :
+  StronglySorted N.lt l1 -> StronglySorted N.lt l2 -> (forall x, In x l1 <-> In x l2) -> l1 = l2.
+Proof.
+  revert l2. induction l1 as [|a l1 IH]; intros l2 H1 H2 H.
+  - destruct l2 as [|b l2]; auto. exfalso. apply (proj2 (H b)). left. reflexivity.
+  - destruct l2 as [|b l2]; [exfalso; apply (proj1 (H a)); left; reflexivity|].
+    inversion H1 as [|? ? Hs1 Hf1]; subst. inversion H2 as [|? ? Hs2 Hf2]; subst.
+    rewrite Forall_forall in Hf1, Hf2.
+    assert (a = b).
+    { destruct (proj1 (H a) (or_introl eq_refl)) as [E|Ha]; [congruence|].
+      destruct (proj2 (H b) (or_introl eq_refl)) as [E|Hb]; [congruence|].
+      specialize (Hf1 _ Hb). specialize (Hf2 _ Ha). lia. }
+    subst b. f_equal. apply IH; auto. intros x. split; intros Hx.
+    + destruct (proj1 (H x) (or_intror Hx)) as [E|G]; auto. subst. specialize (Hf1 _ Hx). lia.
+    + destruct (proj2 (H x) (or_intror Hx)) as [E|G]; auto. subst. specialize (Hf2 _ Hx). lia.
+Qed.
+
+Lemma en_lor_add s c : disjb s c = true -> N.lor s c = s + c.
+Proof.
+  unfold disjb. rewrite N.eqb_eq. intro H. rewrite N.add_nocarry_lxor by exact H. symmetry. apply N.lxor_lor. exact H.
+Qed.
+
+(* coalition_ids.super_coalitions is in increasing id order: it IS the id-ordered filter of the supersets *)
+Theorem en_ids_super_is_filter n c : bounded n c -> en_ids_super n c = Some (filter (fun x => sub c x) (alln n)).
+Proof.
+  intros Hb. rewrite (en_ids_super_eq n c Hb). f_equal. apply en_sorted_ext.
+  - set (l := filter (fun x => sub x (N.ldiff (grand n) c)) (alln n)).
+    assert (Hl : StronglySorted N.lt l) by apply en_filter_alln_sorted.
+    assert (Hd : forall s, In s l -> disjb s c = true).
+    { intros s Hs. apply filter_In in Hs. destruct Hs as [_ Hs]. eapply en_sub_ldiff_disj. exact Hs. }
+    clearbody l. induction Hl as [|s l Hl IH Hf]; simpl; constructor.
+    + apply IH. intros t Ht. apply Hd. right. exact Ht.
+    + apply Forall_forall. intros y Hy. apply in_map_iff in Hy. destruct Hy as [t [<- Ht]].
+      rewrite Forall_forall in Hf. specialize (Hf _ Ht).
+      rewrite (en_lor_add s c) by (apply Hd; left; reflexivity).
+      rewrite (en_lor_add t c) by (apply Hd; right; exact Ht). lia.
+  - apply en_filter_alln_sorted.
+  - intros x. destruct (en_ids_super_spec n c _ Hb (en_ids_super_eq n c Hb)) as [_ Hin].
+    rewrite Hin, filter_In, in_alln. tauto.
+Qed.
+
+(* get_sub_coalitions is produced by non-decreasing coalition size *)
+Lemma en_len_from_players s : NoDup s -> en_len (en_from_players s) = length s.
+Proof.
+  intros Hs. rewrite en_len_spec. apply Permutation_length. apply NoDup_Permutation; [apply en_players_NoDup| exact Hs|].
+  intros i. rewrite en_players_spec. apply en_from_players_spec.
+Qed.
+
+Theorem en_sub_obj_sorted_size c : StronglySorted (fun a b => (en_len a <= en_len b)%nat) (en_sub_obj c).
+Proof.
+  unfold en_sub_obj. apply (cb_sorted_map (fun s t => (length s <= length t)%nat)); [apply cb_powerset_sorted_length|].
+  intros a b Ha Hb H. apply cb_powerset_in in Ha. apply cb_powerset_in in Hb.
+  rewrite !en_len_from_players; [exact H| |]; eapply cb_sublist_NoDup; eauto using en_players_NoDup.
+Qed.
